@@ -118,6 +118,11 @@ THEOREM_MODULES.append("Yarel.Props.FnsTie.Statements")
 REQUIRED_THEOREMS += ["for_statement_skeleton", "for_statement_needs_a_name", "for_protocol_order", "break_statement_skeleton", "continue_statement_skeleton"]
 
 
+# every value is an element: nil, false, 0, the empty string, empty containers, the StopIter CLASS (only an INSTANCE of it is the end
+# marker) go through every kind of iterable - built-in, user class, iterator assembled from closures, the adapters - like any other value
+SCENARIOS.append(("every-value-is-an-element", 'var vals = [1, nil, false, 0, "", [], nil, StopIter, (), 2];\n#[derive(Iter)] class Walk { #[constructor] fn new(self, items) { self.items = items; self.i = 0; } fn iter(self) { self.i = 0; return self; }\n  fn next(self) { if self.i >= self.items.len() { return StopIter.new(); } self.i = self.i + 1; return self.items[self.i - 1]; } }\n#[constructor(new)] class Bare { }\nfn closure_iter(items) { var o = Bare.new(); var i = 0; o.iter = || o; o.next = || { if i >= items.len() { return StopIter.new(); } i = i + 1; return items[i - 1]; }; return o; }\nfn if_nil(v) { if v == 2 { return nil; } return v; }\nfn walk(it) { var out = []; for x in it { out.push(x); } return out; }\nprint(walk(vals));\nprint(walk((1, nil, false, 0, "", [], nil, StopIter, (), 2)));\nprint(walk(Walk.new(vals)));\nprint(walk(closure_iter(vals)));\nprint(walk(vals.iter().map(|v| v)));\nprint(walk(Walk.new(vals).map(|v| v)));\nprint(Walk.new(vals).map(|v| v).collect());\nprint(vals.iter().filter(|v| true).collect());\nprint(Walk.new(vals).filter(|v| v == nil).collect());\nprint(walk(closure_iter(vals)).len());\nprint(vals.iter().map(|v| nil).collect());\nprint(Walk.new([1, 2, 3]).map(|v| if_nil(v)).collect());\nprint(vals.iter().reduce(|a, v| a + 1, 0));\nprint(Walk.new(vals).reduce(|a, v| a + 1, 0));\nvar n = 0; for x in Walk.new([nil, nil, nil]) { n = n + 1; } print(n);\nvar it = Walk.new([nil, 5]); print(it.next()); print(it.next()); print(type(it.next()) == StopIter);\n', ['[1, nil, false, 0, , [], nil, <class StopIter>, (), 2]', '[1, nil, false, 0, , [], nil, <class StopIter>, (), 2]', '[1, nil, false, 0, , [], nil, <class StopIter>, (), 2]', '[1, nil, false, 0, , [], nil, <class StopIter>, (), 2]', '[1, nil, false, 0, , [], nil, <class StopIter>, (), 2]', '[1, nil, false, 0, , [], nil, <class StopIter>, (), 2]', '[1, nil, false, 0, , [], nil, <class StopIter>, (), 2]', '[1, nil, false, 0, , [], nil, <class StopIter>, (), 2]', '[nil, nil]', '10', '[nil, nil, nil, nil, nil, nil, nil, nil, nil, nil]', '[1, nil, 3]', '10', '10', '3', 'nil', '5', 'true']))
+
+
 def canon_item(s):
     if s == "-0":
         return "0"      # the model's chains compute over integers; the sign of a zero product is number semantics (C05/C19)
